@@ -12,13 +12,15 @@ from hypothesis import strategies as st
 def st_grid(draw, min_decades=2, max_decades=8, min_ppd=3, max_ppd=20, lo=-4.0, hi=7.0):
     """Log-spaced grid description: (log10 f_max, decades, points per decade)."""
     decades = draw(st.integers(min_decades, max_decades))
+    if draw(st.integers(0, 3)) == 0 and decades < max_decades:
+        decades = decades + 0.5  # narrow and half-decade ranges too (a strongly contracted tau range reverses its order)
     ppd = draw(st.integers(min_ppd, max_ppd))
     top = draw(st.floats(lo + decades, hi, allow_nan=False)) if lo + decades < hi else hi
     return {"log_fmax": round(top, 3), "decades": decades, "ppd": ppd}
 
 
 def grid(g) -> np.ndarray:
-    n = g["decades"] * g["ppd"] + 1
+    n = int(round(g["decades"] * g["ppd"])) + 1
     return np.logspace(g["log_fmax"], g["log_fmax"] - g["decades"], n)
 
 
